@@ -343,6 +343,13 @@ class C17:
             if "err" in made:
                 return [made, [], []]
             r = made["ok"]
+            # read-only views of the result taken first: they must not change what the container holds
+            # (display_as_dataframe rounds small values in the frame it RETURNS)
+            for kw in ({"threshold": 0.3}, {}, {"threshold": 0.3, "conv_to_probability": True}):
+                try:
+                    r.display_as_dataframe(**kw)
+                except Exception:  # noqa: BLE001
+                    pass
             form = c.get("form", 0)
             qres = []
             for q in c["queries"]:
